@@ -794,20 +794,17 @@ class Runner:
             self.samples.append(text.strip().split('\n')[-1])
         # ---- reference vs gcc
         if gref is not None:
-            if 'error' in gref:
-                st['gcc_skipped'] += 1
-                self.specbad.append(('gcc rejects the generated declaration: ' + gref['error'][-300:], c))
-            else:
-                st['gcc'] += 1
-                d = gcc_compare(c, gref)
-                if d:
-                    # second opinion: clang (gcc mis-places string literals after implicit levels were popped)
-                    cref = gcc_reference(self.ctx.tmp, 'clang_%d' % c.uid, [c], cc='clang').get(c.uid, {})
-                    if 'error' not in cref and gcc_compare(c, cref) is None:
-                        st['gcc_quirk'] = st.get('gcc_quirk', 0) + 1
-                        self.quirks.append(case_source(c).strip().split('\n')[-1][:300])
-                    else:
-                        self.specbad.append(('reference differs from gcc (and clang): ' + d, c))
+            d = ('gcc rejects the declaration: ' + gref['error'][-300:]) if 'error' in gref else gcc_compare(c, gref)
+            st['gcc'] += 1
+            if d:
+                # second opinion: clang (gcc mis-places, or rejects as "excess elements", a string literal that follows
+                # designated items or a brace-elided character array)
+                cref = gcc_reference(self.ctx.tmp, 'clang_%d' % c.uid, [c], cc='clang').get(c.uid, {})
+                if 'error' not in cref and gcc_compare(c, cref) is None:
+                    st['gcc_quirk'] = st.get('gcc_quirk', 0) + 1
+                    self.quirks.append(case_source(c).strip().split('\n')[-1][:300])
+                else:
+                    self.specbad.append(('reference differs from gcc (and clang): ' + d, c))
         # ---- the model's own consistency
         if not (o['P'] or '').startswith('ok'):
             st['model_err'] += 1
